@@ -309,7 +309,13 @@ pub broadcast axiom fn ax_string_from_str(s: &str) ensures (#[trigger] <String a
 // std `impl From<String> for Vec<u8>`: the utf-8 bytes
 pub broadcast axiom fn ax_bytes_from_string_obeys() ensures #[trigger] <Vec<u8> as FromSpec<String>>::obeys_from_spec();
 pub broadcast axiom fn ax_bytes_from_string(s: String) ensures (#[trigger] <Vec<u8> as FromSpec<String>>::from_spec(s))@ == utf8(s@);
-pub broadcast group string_conv { ax_bytes_from_string_obeys, ax_bytes_from_string, ax_string_conv_obeys, ax_string_from_string, ax_string_from_ref, ax_string_from_str, ax_addr_to_string, ax_addr_ref_to_string }
+/// `Option::as_deref` (generic over `T: Deref`): the target is an uninterpreted function of the value, pinned for `String` (-> str) and `Vec<T>` (-> [T])
+pub uninterp spec fn deref_of<T: core::ops::Deref>(t: T) -> &'static T::Target;
+pub assume_specification<T: core::ops::Deref> [ <Option<T>>::as_deref ] (o: &Option<T>) -> (r: Option<&T::Target>)
+    ensures r is Some <==> o is Some, o is Some ==> r->Some_0 == deref_of::<T>(o->Some_0);
+pub broadcast axiom fn ax_deref_string(s: String) ensures (#[trigger] deref_of::<String>(s))@ == s@;
+pub broadcast axiom fn ax_deref_vec<T>(v: Vec<T>) ensures (#[trigger] deref_of::<Vec<T>>(v))@ == v@;
+pub broadcast group string_conv { ax_deref_string, ax_deref_vec, ax_bytes_from_string_obeys, ax_bytes_from_string, ax_string_conv_obeys, ax_string_from_string, ax_string_from_ref, ax_string_from_str, ax_addr_to_string, ax_addr_ref_to_string }
 
 pub broadcast axiom fn ax_string_to_string(t: &String, s: String)
     ensures #[trigger] vstd::string::to_string_from_display_ensures::<String>(t, s) ==> s@ == t@;
